@@ -418,6 +418,24 @@ func (g structReprTupleReprBuilderGenerator) emitListAssemblerChildListAssembler
 	// Surprisingly, the Finish method doesn't have anything to do regarding any trailing optionals:
 	//  if they weren't assigned yet, their Maybe state is still the zero value: absent.  And that's correct.
 	// DRY: okay, this finish component is actually identical, both textually and in terms of linking, to lists.  This we should actually extract.
+	// A tuple may only leave out the optional fields at its end: everything up to the last non-optional field must be there.
+	required := 0
+	requiredNames := ""
+	for i, field := range g.Type.Fields() {
+		if !field.IsOptional() {
+			required = i + 1
+		}
+	}
+	for i, field := range g.Type.Fields() {
+		if i >= required {
+			break
+		}
+		if field.IsOptional() {
+			requiredNames += `"", `
+		} else {
+			requiredNames += strconv.Quote(field.Name()) + ", "
+		}
+	}
 	doTemplate(`
 		func (la *_{{ .Type | TypeSymbol }}__ReprAssembler) Finish() error {
 			switch la.state {
@@ -429,6 +447,15 @@ func (g structReprTupleReprBuilderGenerator) emitListAssemblerChildListAssembler
 				} // if tidy success: carry on
 			case laState_finished:
 				panic("invalid state: Finish cannot be called on an assembler that's already finished")
+			}
+			if la.f < `+strconv.Itoa(required)+` {
+				err := schema.ErrMissingRequiredField{Missing: make([]string, 0)}
+				for _, name := range []string{`+requiredNames+`}[la.f:] {
+					if name != "" {
+						err.Missing = append(err.Missing, name)
+					}
+				}
+				return err
 			}
 			la.state = laState_finished
 			*la.m = schema.Maybe_Value
